@@ -139,6 +139,139 @@ fn update_channel_probe(a: &mut Args) -> String {
 	format!("{} {} {}", matches!(res, Ok(Some(_))) as u8, rd(&ch.one_to_two), rd(&ch.two_to_one))
 }
 
+/// route_overpay_probe <final_value_msat> <last_hop_htlc_min_msat> <mid_base> <mid_prop> <last_base> <last_prop>
+/// Public router API on a line graph  us -(1)- A -(2)- B -(3)- payee  (all channels 1 BTC, both directions
+/// announced through the unsigned-update API): channel 2 (A -> B) charges <mid_base, mid_prop>, channel 3
+/// (B -> payee) charges <last_base, last_prop> and has htlc_minimum <last_hop_htlc_min>. Output: number of
+/// paths, then for the first path each hop's fee_msat (the last one is the amount delivered).
+fn route_overpay_probe(a: &mut Args) -> String {
+	use bitcoin::secp256k1::{PublicKey, Secp256k1, SecretKey};
+	use bitcoin::Network;
+	use lightning::ln::msgs::UnsignedChannelUpdate;
+	use lightning::routing::gossip::{NetworkGraph, NodeId};
+	use lightning::routing::router::{find_route, PaymentParameters, RouteParameters};
+	use lightning::routing::scoring::{ProbabilisticScorer, ProbabilisticScoringDecayParameters, ProbabilisticScoringFeeParameters};
+	use lightning::types::features::ChannelFeatures;
+	let (value, last_min) = (a.u64(), a.u64());
+	let (mid_base, mid_prop, last_base, last_prop) = (a.u32(), a.u32(), a.u32(), a.u32());
+	let secp = Secp256k1::new();
+	let key = |i: u8| PublicKey::from_secret_key(&secp, &SecretKey::from_slice(&[i; 32]).unwrap());
+	let pks = [key(1), key(2), key(3), key(4)];
+	let g = NetworkGraph::new(Network::Testnet, NoLog);
+	let now = std::time::SystemTime::now().duration_since(std::time::UNIX_EPOCH).unwrap().as_secs();
+	let chain = bitcoin::constants::ChainHash::using_genesis_block(Network::Testnet);
+	for scid in 1u64..=3 {
+		let (x, y) = (NodeId::from_pubkey(&pks[scid as usize - 1]), NodeId::from_pubkey(&pks[scid as usize]));
+		let (n1, n2) = if x < y { (x, y) } else { (y, x) };
+		g.add_channel_from_partial_announcement(scid, Some(100_000_000), now, ChannelFeatures::empty(), n1, n2).unwrap();
+		for dir in 0u8..2 {
+			// x -> y is the direction towards the payee; the direction bit is 0 for updates from node_one
+			let forward = dir == 0;
+			let src = if forward { x } else { y };
+			let flags = if src == n1 { 0 } else { 1 };
+			let (base, prop, min) = match (scid, forward) {
+				(2, true) => (mid_base, mid_prop, 0),
+				(3, true) => (last_base, last_prop, last_min),
+				_ => (0, 0, 0),
+			};
+			g.update_channel_unsigned(&UnsignedChannelUpdate {
+				chain_hash: chain,
+				short_channel_id: scid,
+				timestamp: now as u32,
+				message_flags: 1,
+				channel_flags: flags,
+				cltv_expiry_delta: 40,
+				htlc_minimum_msat: min,
+				htlc_maximum_msat: 100_000_000_000,
+				fee_base_msat: base,
+				fee_proportional_millionths: prop,
+				excess_data: Vec::new(),
+			}).unwrap();
+		}
+	}
+	let params = PaymentParameters::from_node_id(pks[3], 40);
+	let rp = RouteParameters::from_payment_params_and_value(params, value);
+	let scorer = ProbabilisticScorer::new(ProbabilisticScoringDecayParameters::default(), &g, NoLog);
+	match find_route(&pks[0], &rp, &g, None, NoLog, &scorer, &ProbabilisticScoringFeeParameters::default(), &[9; 32]) {
+		Ok(route) => {
+			let p = &route.paths[0];
+			format!("{} {}", route.paths.len(), p.hops.iter().map(|h| h.fee_msat.to_string()).collect::<Vec<_>>().join(" "))
+		},
+		Err(e) => format!("0 {}", e.replace(' ', "_")),
+	}
+}
+
+/// route_mpp_overpay_probe <final_value> <p1_last_min_max> <p1_mid_prop> <p2_last_min_max> <p2_mid_prop>
+/// Public router API, MPP enabled, on two disjoint 3-hop lines  us - A_k - B_k - payee  (k = 1, 2). On line k
+/// the channel A_k -> B_k charges <pk_mid_prop> ppm and the last channel B_k -> payee accepts exactly
+/// <pk_last_min_max> msat (htlc_minimum = htlc_maximum). Output per path: `| scid of the first channel,
+/// fee_msat of each hop`. A forwarding node is underpaid when hop[0].fee_msat < mid_prop * (hop[1].fee + hop[2].fee) / 10^6.
+fn route_mpp_overpay_probe(a: &mut Args) -> String {
+	use bitcoin::secp256k1::{PublicKey, Secp256k1, SecretKey};
+	use bitcoin::Network;
+	use lightning::ln::msgs::UnsignedChannelUpdate;
+	use lightning::routing::gossip::{NetworkGraph, NodeId};
+	use lightning::routing::router::{find_route, PaymentParameters, RouteParameters};
+	use lightning::routing::scoring::{ProbabilisticScorer, ProbabilisticScoringDecayParameters, ProbabilisticScoringFeeParameters};
+	use lightning::types::features::{Bolt11InvoiceFeatures, ChannelFeatures};
+	let value = a.u64();
+	let lines = [(a.u64(), a.u32()), (a.u64(), a.u32())];
+	let secp = Secp256k1::new();
+	let key = |i: u8| PublicKey::from_secret_key(&secp, &SecretKey::from_slice(&[i; 32]).unwrap());
+	let (us, payee) = (key(1), key(2));
+	let g = NetworkGraph::new(Network::Testnet, NoLog);
+	let now = std::time::SystemTime::now().duration_since(std::time::UNIX_EPOCH).unwrap().as_secs();
+	let chain = bitcoin::constants::ChainHash::using_genesis_block(Network::Testnet);
+	for (k, (last_amt, mid_prop)) in lines.iter().enumerate() {
+		let nodes = [us, key(10 + k as u8), key(20 + k as u8), payee];
+		for c in 0..3usize {
+			let scid = (k as u64 + 1) * 10 + c as u64;
+			let (x, y) = (NodeId::from_pubkey(&nodes[c]), NodeId::from_pubkey(&nodes[c + 1]));
+			let (n1, n2) = if x < y { (x, y) } else { (y, x) };
+			g.add_channel_from_partial_announcement(scid, Some(100_000_000), now, ChannelFeatures::empty(), n1, n2).unwrap();
+			for forward in [true, false] {
+				let src = if forward { x } else { y };
+				let (prop, min, max) = match (c, forward) {
+					(1, true) => (*mid_prop, 0, 100_000_000_000),
+					(2, true) => (0, *last_amt, *last_amt),
+					_ => (0, 0, 100_000_000_000),
+				};
+				g.update_channel_unsigned(&UnsignedChannelUpdate {
+					chain_hash: chain,
+					short_channel_id: scid,
+					timestamp: now as u32,
+					message_flags: 1,
+					channel_flags: if src == n1 { 0 } else { 1 },
+					cltv_expiry_delta: 40,
+					htlc_minimum_msat: min,
+					htlc_maximum_msat: max,
+					fee_base_msat: 0,
+					fee_proportional_millionths: prop,
+					excess_data: Vec::new(),
+				}).unwrap();
+			}
+		}
+	}
+	let mut feats = Bolt11InvoiceFeatures::empty();
+	feats.set_variable_length_onion_required();
+	feats.set_payment_secret_required();
+	feats.set_basic_mpp_optional();
+	let params = PaymentParameters::from_node_id(payee, 40).with_bolt11_features(feats).unwrap();
+	let mut rp = RouteParameters::from_payment_params_and_value(params, value);
+	rp.max_total_routing_fee_msat = None;
+	let scorer = ProbabilisticScorer::new(ProbabilisticScoringDecayParameters::default(), &g, NoLog);
+	match find_route(&us, &rp, &g, None, NoLog, &scorer, &ProbabilisticScoringFeeParameters::default(), &[9; 32]) {
+		Ok(route) => {
+			let mut out = format!("{}", route.paths.len());
+			for p in route.paths.iter() {
+				out += &format!(" | {} {}", p.hops[0].short_channel_id, p.hops.iter().map(|h| h.fee_msat.to_string()).collect::<Vec<_>>().join(" "));
+			}
+			out
+		},
+		Err(e) => format!("0 {}", e.replace(' ', "_")),
+	}
+}
+
 /// node_announcement_addr_probe <addr_len> <avail> (<kind> <hostname_len>)*: decodes (real
 /// `UnsignedNodeAnnouncement::read_from_fixed_length_buffer`) the byte string
 ///   flen=0 | timestamp | node_id | rgb | alias | addr_len | descriptors... zero padding
@@ -395,6 +528,8 @@ fn dispatch(name: &str, a: &mut Args) -> String {
 		},
 		"node_announcement_probe" => node_announcement_probe(a),
 		"node_announcement_addr_probe" => node_announcement_addr_probe(a),
+		"route_overpay_probe" => route_overpay_probe(a),
+		"route_mpp_overpay_probe" => route_mpp_overpay_probe(a),
 		"channel_config_roundtrip" => {
 			// <prop> <base> <cltv delta> <force close fee> <accept underpaying> <dust kind 0 fixed / 1 multiplier> <dust value>
 			use lightning::util::config::{ChannelConfig, MaxDustHTLCExposure};
@@ -551,7 +686,7 @@ fn dispatch(name: &str, a: &mut Args) -> String {
 }
 
 fn main() {
-	std::panic::set_hook(Box::new(|_| {}));
+	if std::env::var("ORACLE_DEBUG").is_err() { std::panic::set_hook(Box::new(|_| {})); }
 	let stdin = std::io::stdin();
 	let stdout = std::io::stdout();
 	let mut out = stdout.lock();
